@@ -21,14 +21,17 @@ EXTENDS IndexedStore, TraceCommon
 
 CONSTANT CheckImpl
 
-VARIABLES l, stack, cfgl
-tvars == <<vars, l, stack, cfgl>>
+VARIABLES l, stack, cfgl, txs
+tvars == <<vars, l, stack, cfgl, txs>>
 
 Slot(ob, m) == [objs |-> ob, kv |-> m]
+(* the open multi-operation transaction (TxBegin .. TxEnd): its own view of objs / kv, *)
+(* the writes it issued so far, the injected failure, and whether an operation failed  *)
+NoTxs == [active |-> FALSE, pre |-> 0, objs |-> Objs0, kv |-> <<>>, nw |-> 0, failAt |-> 0, dead |-> FALSE]
 
 TrInit ==
     /\ Init /\ l = 1 /\ HWInit
-    /\ stack = <<Slot(Objs0, <<>>)>> /\ cfgl = 0
+    /\ stack = <<Slot(Objs0, <<>>)>> /\ cfgl = 0 /\ txs = NoTxs
 
 Ln == Trace[l]
 Cfg == Trace[cfgl]
@@ -36,7 +39,7 @@ IsEv(e) == l <= Len(Trace) /\ Ln.ev = e /\ l' = l + 1
 
 Frozen == UNCHANGED <<open, tx, pend, cur, res>>
 
-(* the driver logs path.Match(pattern, id) for all five IDs as computed by Go:  *)
+(* the driver logs path.Match(pattern, id) for all six IDs as computed by Go:  *)
 (* our table is an assumption about the library, not something to alarm on.    *)
 GlobAgrees(g) ==
     \A p \in DOMAIN g : Assert(p \in DOMAIN GlobTable /\ SeqToSet(g[p]) = GlobTable[p],
@@ -45,7 +48,7 @@ GlobAgrees(g) ==
 TrReset ==
     /\ IsEv("Reset")
     /\ GlobAgrees(Ln.glob)
-    /\ stack' = <<Slot(Objs0, <<>>)>> /\ cfgl' = l
+    /\ stack' = <<Slot(Objs0, <<>>)>> /\ cfgl' = l /\ txs' = NoTxs
     /\ kv' = <<>> /\ objs' = Objs0
     /\ Frozen
 
@@ -61,8 +64,8 @@ RefListFromT(ordT, q) ==
 ObjT(o) == <<o.id, o.a, o.v>>
 ObjsT(s) == [j \in DOMAIN s |-> ObjT(s[j])]
 Lists(ob, qs, logged) ==
-    LET oid == ObjsT(RefOrdered(ob, "id"))  oa == ObjsT(RefOrdered(ob, "a"))
-    IN  \A i \in DOMAIN qs : logged[i] = RefListFromT(IF qs[i].idx = "id" THEN oid ELSE oa, qs[i])
+    LET oo == [x \in {"id", "a", "u"} |-> ObjsT(RefOrdered(ob, x))]
+    IN  \A i \in DOMAIN qs : logged[i] = RefListFromT(oo[qs[i].idx], qs[i])
 ObsOK(ob, ln) ==
     /\ \A i \in DOMAIN Cfg.ids : ln.get[i] = ObjsT(ob[Cfg.ids[i]])
     /\ Lists(ob, Cfg.gridb, ln.lists)
@@ -104,7 +107,7 @@ OpOK(s, op, ln, applied, ob2, r) ==
     /\ (CheckImpl => (r # <<>> /\ ln.keys = Dump(r[1])))
 
 TrOp ==
-    /\ IsEv("Op")
+    /\ IsEv("Op") /\ ~txs.active
     /\ Ln.pre \in 1..Len(stack) /\ Ln.post \in 1..(Len(stack) + 1)
     /\ LET s == stack[Ln.pre]
            op == [op |-> Ln.op, id |-> Ln.id, a |-> Ln.a, v |-> Ln.v]
@@ -115,16 +118,88 @@ TrOp ==
              /\ objs' = ob2
              /\ kv' = r[1]
              /\ stack' = SubSeq(stack, 1, Ln.post - 1) \o <<Slot(ob2, r[1])>>
+    /\ UNCHANGED <<cfgl, txs>> /\ Frozen
+
+(* ---- multi-operation transactions: store.Update(func(tx) { CreateTx/PutTx/ReplaceTx/DeleteTx/RebuildTx ...; ----
+   ---- GetTx + ListTx after each }) : a sequence of lines TxBegin, TxOp*, TxEnd.                              ---- *)
+TrTxBegin ==
+    /\ IsEv("TxBegin") /\ ~txs.active
+    /\ Ln.pre \in 1..Len(stack)
+    /\ txs' = [active |-> TRUE, pre |-> Ln.pre, objs |-> stack[Ln.pre].objs, kv |-> stack[Ln.pre].kv,
+               nw |-> 0, failAt |-> Ln.failAt, dead |-> FALSE]
+    /\ UNCHANGED <<kv, objs, stack, cfgl>> /\ Frozen
+
+(* Impl: effect of one operation on the transaction's kv given the tx-wide write counter *)
+TxImplStep(op, ln) ==
+    IF Rejected(txs.kv, op) # "no"
+    THEN IF ln.res = Rejected(txs.kv, op) /\ ~ln.fired THEN <<txs.kv, txs.nw>> ELSE <<>>
+    ELSE LET ws == Writes(txs.kv, op) IN
+         IF txs.failAt \in (txs.nw + 1)..(txs.nw + Len(ws))
+         THEN IF ln.res = "err" /\ ln.fired THEN <<txs.kv, txs.failAt>> ELSE <<>>
+         ELSE IF ln.res = "ok" /\ ~ln.fired THEN <<ApplyAll(txs.kv, ws), txs.nw + Len(ws)>> ELSE <<>>
+
+(* the operation succeeded inside the transaction: GetTx of every ID and ListTx over the *)
+(* in-transaction grid must be those of the history so far, this transaction included   *)
+TxObsOK(ob, ln) ==
+    /\ \A i \in DOMAIN Cfg.ids : ln.get[i] = ObjsT(ob[Cfg.ids[i]])
+    /\ Lists(ob, Cfg.gridt, ln.lists)
+
+TxOpOK(op, ln, okk, ob2, r) ==
+    LET rej == RefRejected(txs.objs, op) IN
+    /\ IF okk
+       THEN /\ rej = "no"
+            /\ \/ ln.res = "ok"
+               \/ ln.res = "noexist" /\ op.op = "Delete" /\ txs.objs[op.id] = None
+            /\ TxObsOK(ob2, ln)
+       ELSE \/ ln.res = "err" /\ ln.fired
+            \/ rej # "no" /\ ln.res = rej
+    /\ (CheckImpl => r # <<>>)
+
+TrTxOp ==
+    /\ IsEv("TxOp") /\ txs.active /\ ~txs.dead
+    /\ LET op == [op |-> Ln.op, id |-> Ln.id, a |-> Ln.a, v |-> Ln.v]
+           r == IF CheckImpl THEN TxImplStep(op, Ln) ELSE <<txs.kv, txs.nw>>
+       IN  \E okk \in BOOLEAN :
+             LET ob2 == IF okk THEN RefApply(txs.objs, op) ELSE txs.objs IN
+             /\ TxOpOK(op, Ln, okk, ob2, r) = TRUE
+             /\ txs' = [txs EXCEPT !.objs = ob2, !.kv = r[1], !.nw = r[2], !.dead = ~okk]
+    /\ UNCHANGED <<kv, objs, stack, cfgl>> /\ Frozen
+
+(* end of the transaction function: Update committed (res ok) or rolled back (an operation *)
+(* failed, the function aborted deliberately, or the commit failed)                       *)
+TxEndOK(ln, committed, ob2, m2) ==
+    /\ IF committed
+       THEN ~txs.dead /\ ~ln.abort /\ ln.res = "ok"
+       ELSE \/ txs.dead /\ ln.res # "ok"
+            \/ ~txs.dead /\ ln.abort /\ ln.res = "abort"
+            \/ ~txs.dead /\ ~ln.abort /\ ln.res = "err" /\ ln.fired     \* tx.Commit failed
+    /\ ObsOK(ob2, ln)
+    /\ (CheckImpl =>
+          /\ (committed => ~ln.fired)
+          /\ ((~txs.dead /\ ~ln.abort /\ txs.failAt = -1) => ~committed)
+          /\ (ln.nw >= 0 => ln.nw = txs.nw)
+          /\ ln.keys = Dump(m2))
+
+TrTxEnd ==
+    /\ IsEv("TxEnd") /\ txs.active
+    /\ Ln.post \in 1..(Len(stack) + 1)
+    /\ \E committed \in BOOLEAN :
+         LET ob2 == IF committed THEN txs.objs ELSE stack[txs.pre].objs
+             m2 == IF committed THEN txs.kv ELSE stack[txs.pre].kv
+         IN  /\ TxEndOK(Ln, committed, ob2, m2) = TRUE
+             /\ objs' = ob2 /\ kv' = m2
+             /\ stack' = SubSeq(stack, 1, Ln.post - 1) \o <<Slot(ob2, m2)>>
+    /\ txs' = NoTxs
     /\ UNCHANGED cfgl /\ Frozen
 
 (* a reopen (or a plain observation) of the state in slot `at` *)
 TrReopen ==
-    /\ IsEv("Reopen")
+    /\ IsEv("Reopen") /\ ~txs.active
     /\ Ln.at \in 1..Len(stack)
     /\ (ObsOK(stack[Ln.at].objs, Ln) /\ (CheckImpl => Ln.keys = Dump(stack[Ln.at].kv))) = TRUE
-    /\ UNCHANGED <<kv, objs, stack, cfgl>> /\ Frozen
+    /\ UNCHANGED <<kv, objs, stack, cfgl, txs>> /\ Frozen
 
-TrNext == TrReset \/ TrOp \/ TrReopen
+TrNext == TrReset \/ TrOp \/ TrReopen \/ TrTxBegin \/ TrTxOp \/ TrTxEnd
 TrSpec == TrInit /\ [][TrNext]_tvars
 
 (* Impl-level invariants on the histories the real code went through (drift cfg only) *)
